@@ -24,12 +24,13 @@ def cfgStr (c : Case) (k : String) (d : String) : String :=
 /-- timestamp token → usable timestamp (window/factory.go extractTimestamp): plain digits int64,
 `f…` float64, `s…` decimal string, `t…` time.Time; `none` (absent), `nil`, `garbage` (non-numeric
 string) are unplaceable; without a declared TIMEUNIT (`unit = 0`) only time.Time values are usable -/
-def tsOfTok (unit : Int) (tok : String) : Option Int :=
-  if tok == "none" || tok == "nil" || tok == "garbage" then none
+def tsOfTok (unit : Int) (tok : String) (shift : Int := 0) : Option Int :=
+  (if tok == "none" || tok == "nil" || tok == "garbage" then none
   else if tok.startsWith "t" then parseInt (tok.drop 1).toString
   else if unit == 0 then none
-  else if tok.startsWith "f" || tok.startsWith "s" then parseInt (tok.drop 1).toString
-  else parseInt tok
+  -- `h…` / `q…`: a float64 with fractional part .5 / .75 — the integer part counts (truncation)
+  else if tok.startsWith "f" || tok.startsWith "s" || tok.startsWith "h" || tok.startsWith "q" then parseInt (tok.drop 1).toString
+  else parseInt tok).map (· + shift)
 
 def emLine (e : Emission) : List String :=
   (if e.kind == .late then "lemit" else "emit") :: toString e.start :: toString e.stop :: e.rows.map (fun r => toString r.id)
@@ -53,14 +54,14 @@ structure Gap where
   ts : Option Int
   rel : Option Int := none   -- `@off`: the timestamp is (start of the window being delivered) + off
 
-def parseGap (unit : Int) (g : String) : Option Gap :=
+def parseGap (unit : Int) (g : String) (shift : Int := 0) : Option Gap :=
   match g.splitOn ":" with
   | k :: id :: ts :: _ => do
     let k ← parseNat k; let id ← parseNat id
     if ts.startsWith "@" then
       (if unit == 0 then some { k := k, id := id, ts := none }
        else (parseInt (ts.drop 1).toString).map fun off => { k := k, id := id, ts := none, rel := some off })
-    else some { k := k, id := id, ts := tsOfTok unit ts }
+    else some { k := k, id := id, ts := tsOfTok unit ts shift }
   | _ => none
 
 def Gap.tsAt (g : Gap) (start : Int) : Option Int :=
@@ -139,7 +140,7 @@ def runWith [Inhabited σ] (m : Machine σ) (s0 : σ) (scfg : WinSpec.Cfg) (c : 
     match op with
     | "add" :: id :: ts :: _ =>
       let id := (parseNat id).getD 0
-      let ts := tsOfTok (cfgInt c "tsunit" 1) ts
+      let ts := tsOfTok (cfgInt c "tsunit" 1) ts (cfgInt c "tsadd" 0)
       if mode == "pt" then
         match ts with
         | some t => s := m.ptAdd s { id := id, ts := t }
@@ -157,7 +158,7 @@ def runWith [Inhabited σ] (m : Machine σ) (s0 : σ) (scfg : WinSpec.Cfg) (c : 
         evs := evs ++ [WinSpec.Ev.arr id ts] ++ evsOfObs implObs []
       flushed := false
     | "deliver" :: gs =>
-      let gaps := gs.filterMap (parseGap (cfgInt c "tsunit" 1))
+      let gaps := gs.filterMap (fun g => parseGap (cfgInt c "tsunit" 1) g (cfgInt c "tsadd" 0))
       match deliver m s gaps now (lemitStarts implObs) with
       | none => obs := obs ++ [[["idle"]]]
       | some (s', es) =>
@@ -201,7 +202,7 @@ def runWith [Inhabited σ] (m : Machine σ) (s0 : σ) (scfg : WinSpec.Cfg) (c : 
       idleTicks := idleTicks + 1
       obs := obs ++ [[]]
     | "pttick" :: gs =>
-      let gaps := gs.filterMap (parseGap 1)
+      let gaps := gs.filterMap (fun g => parseGap 1 g (cfgInt c "tsadd" 0))
       let (s', es) := m.ptTick s
       s := s'
       -- Adds issued during the hand-off of the fired window (inside the callback)
